@@ -255,3 +255,12 @@ claim(
     "abstract interpretation on a concrete grid of free symbols against a supercell-halo oracle; decision tables; who-may-call / def-use rule on the syntax tree",
     "DESIGN.md §5 C09",
 )
+
+claim(
+    "C12",
+    "other",
+    "Narrow: the 1e-6 / 1e-4 absorption levels are runtime quantities and are not decided. Decided are clauses without which a CPML layer cannot absorb: for a layer on each axis and direction, curl_E / curl_H with the layer equal the plain curl with every derivative d along the layer's axis replaced inside the layer by d + (1/kappa - 1) d + psi', psi' = b psi + a d, each memory variable paired with its own derivative and entering with that term's Levi-Civita sign, H coefficients in curl_E and E coefficients in curl_H, the kappa = 1 shortcut only when both kappa_start and kappa_end are 1 (four kappa patterns), psi frozen when boundaries are not simulated; place_on_grid sets b = exp(-dt/eps0 (sigma/kappa + alpha)), a = (b-1) sigma/((sigma + alpha kappa) kappa), inv_kappa = 1/kappa per staggering and the documented default sigma_end; the profile is start + (end-start)(depth/L)^order with depth 0 on the interior face, monotone into the layer, max-side depth tables the mirror image of the min-side ones; every per-face BoundaryConfig grading value, thickness, axis and direction reaches the PML field of the same name.",
+    TB + "; Levi-Civita oracle of C01; exp/expm1/log opaque with expm1(u)+1 = exp(u); models of arange/append/insert/power on depth tables",
+    "abstract interpretation over a stencil / indicator domain against a CPML substitution oracle; polynomial identities for the coefficients; decision tables for depth profiles and configuration wiring",
+    "DESIGN.md §5 C12",
+)
